@@ -383,10 +383,12 @@ def read_build(ctx: Ctx, src: Path) -> list[dict]:
         if (isinstance(node, ast.BinOp) and isinstance(node.op, ast.Div)) or \
                 (isinstance(node, ast.Constant) and node.value in ("function", "functions", "tags", "load.json", "tick.json", "minecraft")):
             raise Untranslatable("read_func_tag builds a path of its own")
-    # any other spelling of the function folder in build would bypass function_folder
+    # any other spelling of the function folder in build would bypass function_folder (docstrings are prose, not paths)
+    docstrings = {id(st.value) for node in ast.walk(fn) if isinstance(node, (ast.FunctionDef, ast.AsyncFunctionDef, ast.ClassDef))
+                  for st in node.body[:1] if isinstance(st, ast.Expr) and isinstance(st.value, ast.Constant) and isinstance(st.value.value, str)}
     for node in ast.walk(fn):
         if isinstance(node, ast.Constant) and isinstance(node.value, str) and re.search(r"\bfunctions?\b", node.value) \
-                and node.value not in ("function", "functions"):
+                and node.value not in ("function", "functions") and id(node) not in docstrings:
             raise Untranslatable(f"build: literal {node.value!r} spells a function folder")
     return [
         dict(label="compile/compiling.py:build#functions", api="ApiPath", expr=ff, kind=kind_of(ff), cls="build", group="build",
@@ -464,6 +466,287 @@ GATE_FEATURE = {
 }
 
 
+# ---- under which conditions a `require(...)` call is reached (strengthening round 3) --------------------------------------
+# A gate protects a feature only on the paths that reach it.  For every gate the translator derives the list of conditions
+# between the entry of its function and the call: tests of the enclosing `if`s (with polarity), enclosing loops, and earlier
+# statements that leave the function silently (`return` / `continue` / `break`; a `raise` is a diagnostic, not a silent path).
+# Inside a built-in's `call` (or a mixin method it calls) every condition must be expressible over the ARGUMENTS of the call
+# (`self.check_bool("x")`, `self.args["x"]`, and / or / not) so that the probes can evaluate it for each argument combination;
+# elsewhere the list must be the reviewed one of GATE_REACH.  Anything else is Untranslatable (fail closed).
+
+def _contains(node: ast.AST, target: ast.AST) -> bool:
+    return any(n is target for n in ast.walk(node))
+
+
+def _walk_no_defs(node: ast.AST):
+    yield node
+    for ch in ast.iter_child_nodes(node):
+        if isinstance(ch, (ast.FunctionDef, ast.AsyncFunctionDef, ast.Lambda, ast.ClassDef)):
+            continue
+        yield from _walk_no_defs(ch)
+
+
+def _silent_exit(st: ast.AST) -> bool:
+    """does executing `st` possibly leave the enclosing block silently (return; continue / break of an ENCLOSING loop)?"""
+    def rec(node, in_loop):
+        if isinstance(node, ast.Return):
+            return True
+        if isinstance(node, (ast.Continue, ast.Break)) and not in_loop:
+            return True
+        for ch in ast.iter_child_nodes(node):
+            if isinstance(ch, (ast.FunctionDef, ast.AsyncFunctionDef, ast.Lambda, ast.ClassDef)):
+                continue
+            if rec(ch, in_loop or isinstance(node, (ast.For, ast.While))):
+                return True
+        return False
+    return rec(st, False)
+
+
+def _always_leaves(body: list) -> bool:
+    return bool(body) and isinstance(body[-1], (ast.Return, ast.Raise, ast.Continue, ast.Break))
+
+
+def reach_conditions(fn: ast.FunctionDef, call: ast.Call, where: str) -> list[tuple]:
+    """[(polarity, test node) | ("loop", text) | ("opaque", text)] in program order"""
+    out: list[tuple] = []
+
+    def simple_stmt_ok(st):
+        # the call must be evaluated whenever the statement is: not under a lambda / comprehension / conditional expression / and-or
+        def rec(node):
+            if node is call:
+                return True
+            for ch in ast.iter_child_nodes(node):
+                if _contains(ch, call):
+                    if isinstance(node, (ast.Lambda, ast.ListComp, ast.SetComp, ast.DictComp, ast.GeneratorExp, ast.IfExp, ast.BoolOp)):
+                        raise Untranslatable(f"{where}: the gate is evaluated conditionally inside an expression ({type(node).__name__})")
+                    return rec(ch)
+            return False
+        rec(st)
+
+    def walk(stmts):
+        for st in stmts:
+            if not _contains(st, call):
+                if isinstance(st, (ast.FunctionDef, ast.AsyncFunctionDef, ast.ClassDef)):
+                    continue
+                if isinstance(st, ast.Return):
+                    raise Untranslatable(f"{where}: the gate follows an unconditional return")
+                if _silent_exit(st):
+                    if isinstance(st, ast.If) and _always_leaves(st.body) and not any(_silent_exit(x) for x in st.orelse):
+                        out.append((False, st.test))
+                    elif isinstance(st, ast.If) and st.orelse and _always_leaves(st.orelse) and not any(_silent_exit(x) for x in st.body):
+                        out.append((True, st.test))
+                    else:
+                        out.append(("opaque", "after a statement that may return: " + ast.unparse(st).split("\n")[0][:100]))
+                continue
+            if isinstance(st, ast.If):
+                if _contains(st.test, call):
+                    raise Untranslatable(f"{where}: the gate is part of an `if` test")
+                if any(_contains(x, call) for x in st.body):
+                    out.append((True, st.test))
+                    return walk(st.body)
+                out.append((False, st.test))
+                return walk(st.orelse)
+            if isinstance(st, (ast.For, ast.While)):
+                head = f"for {ast.unparse(st.target)} in {ast.unparse(st.iter)}" if isinstance(st, ast.For) else f"while {ast.unparse(st.test)}"
+                if any(_contains(x, call) for x in st.body):
+                    out.append(("loop", head))
+                    return walk(st.body)
+                raise Untranslatable(f"{where}: the gate is in the head / else of a loop")
+            if isinstance(st, ast.With):
+                return walk(st.body)
+            if isinstance(st, ast.Try):
+                if any(_contains(x, call) for x in st.body):
+                    return walk(st.body)
+                if any(_contains(x, call) for x in st.finalbody):
+                    return walk(st.finalbody)
+                raise Untranslatable(f"{where}: the gate is inside an exception handler")
+            if isinstance(st, (ast.Expr, ast.Assign, ast.AnnAssign, ast.AugAssign, ast.Return)):
+                simple_stmt_ok(st)
+                return
+            raise Untranslatable(f"{where}: the gate is nested in a {type(st).__name__} statement")
+        raise Untranslatable(f"{where}: gate not found in its function")
+    walk(body_no_doc(fn))
+    return out
+
+
+def cond_atom(test: ast.AST, fn: ast.FunctionDef, binding: dict) -> tuple:
+    """condition over the arguments of a built-in call: ("bool", arg) | ("given", arg) | ("not", c) | ("and"|"or", [c…]) | ("opaque", text)"""
+    if isinstance(test, ast.UnaryOp) and isinstance(test.op, ast.Not):
+        return ("not", cond_atom(test.operand, fn, binding))
+    if isinstance(test, ast.BoolOp):
+        return ("and" if isinstance(test.op, ast.And) else "or", [cond_atom(v, fn, binding) for v in test.values])
+    if isinstance(test, ast.Call) and ast.unparse(test.func) == "self.check_bool" and len(test.args) == 1 and not test.keywords \
+            and isinstance(test.args[0], ast.Constant) and isinstance(test.args[0].value, str):
+        return ("bool", test.args[0].value)
+    if isinstance(test, ast.Subscript) and ast.unparse(test.value) == "self.args":
+        k = test.slice
+        if isinstance(k, ast.Constant) and isinstance(k.value, str):
+            return ("given", k.value)
+        if isinstance(k, ast.Name) and k.id in binding:
+            return ("given", binding[k.id])
+    if isinstance(test, ast.Name):
+        # a local assigned exactly once, from one of the shapes above
+        assigns = [n for n in _walk_no_defs(fn) if isinstance(n, (ast.Assign, ast.AnnAssign, ast.AugAssign, ast.NamedExpr, ast.For))
+                   and any(isinstance(t, ast.Name) and t.id == test.id for tg in
+                           (n.targets if isinstance(n, ast.Assign) else [n.target]) for t in ast.walk(tg))]
+        if len(assigns) == 1 and isinstance(assigns[0], ast.Assign) and len(assigns[0].targets) == 1 \
+                and isinstance(assigns[0].targets[0], ast.Name) and not isinstance(assigns[0].value, ast.Name):
+            return cond_atom(assigns[0].value, fn, binding)
+    return ("opaque", ast.unparse(test))
+
+
+def cond_text(c: tuple) -> str:
+    if c[0] == "bool":
+        return f"{c[1]}=true"
+    if c[0] == "given":
+        return f"{c[1]} given"
+    if c[0] == "not":
+        return "not (" + cond_text(c[1]) + ")"
+    if c[0] in ("and", "or"):
+        return "(" + f" {c[0]} ".join(cond_text(x) for x in c[1]) + ")"
+    return f"<{c[1]}>"
+
+
+def cond_opaque(c: tuple) -> bool:
+    if c[0] == "opaque":
+        return True
+    if c[0] == "not":
+        return cond_opaque(c[1])
+    if c[0] in ("and", "or"):
+        return any(cond_opaque(x) for x in c[1])
+    return False
+
+
+def cond_eval(c: tuple, args: dict) -> bool:
+    """args: effective argument values of the call (defaults filled in)"""
+    if c[0] == "bool":
+        return args.get(c[1]) == "true"
+    if c[0] == "given":
+        return bool(args.get(c[1]))
+    if c[0] == "not":
+        return not cond_eval(c[1], args)
+    if c[0] == "and":
+        return all(cond_eval(x, args) for x in c[1])
+    if c[0] == "or":
+        return any(cond_eval(x, args) for x in c[1])
+    raise Untranslatable(f"condition {c} cannot be evaluated")
+
+
+# reviewed reach conditions of the gates that are not inside a built-in (exact texts; a change is Untranslatable)
+GATE_REACH = {     # key -> reviewed alternatives (the original tree and the current one)
+    ("compile/lexer_func_content.py", "FuncContent.__handle_with_anon", 0): [["not (not self.was_anonym_func)"]],
+    ("compile/lexer_func_content.py", "FuncContent.__handle_with", 0): [[]],
+    ("compile/command/_flow_control.py", "switch", 0): [[
+        "loop for tokens in list_of_tokens", "tokens[0].string == 'case' and tokens[0].token_type == TokenType.KEYWORD", "count != expected_case"]],
+    ("compile/command/_flow_control.py", "switch", 1): [
+        ["loop for tokens in list_of_tokens", "tokens and tokens[0].string == 'default' and (tokens[0].token_type == TokenType.KEYWORD)"],
+        ["loop for tokens in list_of_tokens", "tokens[0].string == 'default' and tokens[0].token_type == TokenType.KEYWORD"]],
+}
+
+
+def builtin_classes(tree: ast.AST) -> dict:
+    """class name -> dict(call_string, args [(name, ArgType)], defaults) from the @func_property decorator"""
+    out = {}
+    for node in ast.walk(tree):
+        if not isinstance(node, ast.ClassDef):
+            continue
+        for dec in node.decorator_list:
+            if isinstance(dec, ast.Call) and isinstance(dec.func, ast.Name) and dec.func.id == "func_property":
+                kw = {k.arg: k.value for k in dec.keywords}
+                cs, at, df = kw.get("call_string"), kw.get("arg_type"), kw.get("defaults")
+                if not (isinstance(cs, ast.Constant) and isinstance(cs.value, str) and isinstance(at, ast.Dict)):
+                    raise Untranslatable(f"func_property of {node.name}: call_string / arg_type not literal")
+                args = []
+                for k, v in zip(at.keys, at.values):
+                    if not (isinstance(k, ast.Constant) and isinstance(v, ast.Attribute)):
+                        raise Untranslatable(f"func_property of {node.name}: arg_type entry {ast.unparse(k) if k else k}")
+                    args.append((k.value, v.attr))
+                defaults = {}
+                if df is not None:
+                    if not isinstance(df, ast.Dict):
+                        raise Untranslatable(f"func_property of {node.name}: defaults not a dict literal")
+                    for k, v in zip(df.keys, df.values):
+                        if not (isinstance(k, ast.Constant) and isinstance(v, ast.Constant) and isinstance(v.value, str)):
+                            raise Untranslatable(f"func_property of {node.name}: defaults entry")
+                        defaults[k.value] = v.value
+                out[node.name] = dict(call_string=cs.value, args=args, defaults=defaults, cls=node.name, node=node)
+    return out
+
+
+def read_gated_builtins(src: Path, gates: list[dict], errors: list[str]) -> list[dict]:
+    """For every gate inside a built-in's `call`, or inside a method (mixin) that built-ins call as `self.<method>(…)`: the
+    built-ins that reach it and the gate's reach condition over THEIR arguments."""
+    trees = {}
+    for path in sorted(src.rglob("*.py")):
+        text = path.read_text()
+        if "func_property" in text or any(g["rel"] == path.relative_to(src).as_posix() for g in gates):
+            trees[path.relative_to(src).as_posix()] = ast.parse(text)
+    classes = {}
+    for rel, tree in trees.items():
+        for name, info in builtin_classes(tree).items():
+            info["rel"] = rel
+            classes[name] = info
+    out = {}
+
+    def add(info, gate, conds):
+        e = out.setdefault(info["call_string"], dict(call_string=info["call_string"], cls=info["cls"], rel=info["rel"], args=info["args"],
+                                                     defaults=info["defaults"], gates=[]))
+        e["gates"].append(dict(label=gate["label"], feature=gate["feature"], conds=conds, conds_text=[cond_text(c) for c in conds]))
+
+    for g in gates:
+        if "." not in g["qual"]:
+            continue
+        cls, meth = g["qual"].split(".", 1)
+        if "." in meth:
+            continue
+        if cls in classes and meth == "call":
+            conds = [c if p else ("not", c) for p, c in ((p, cond_atom(t, g["fn"], {})) for p, t in g["reach_nodes"])]
+            if g["reach_other"] or any(cond_opaque(c) for c in conds):
+                errors.append(f"{g['label']}: reached under a condition that is not a function of the call's arguments: "
+                              f"{g['reach_other'] + [cond_text(c) for c in conds if cond_opaque(c)]}")
+                conds = []          # judged as if it applied to every argument combination: the probes show where it does not
+            add(classes[cls], g, conds)
+            continue
+        if cls in classes:
+            continue            # a gate in another method of a built-in: judged through GATE_REACH below
+        # a method of a mixin / base class: every built-in that calls self.<meth>(…)
+        fn = g["fn"]
+        params = {a.arg: d.value for a, d in zip(fn.args.args[len(fn.args.args) - len(fn.args.defaults):], fn.args.defaults)
+                  if isinstance(d, ast.Constant) and isinstance(d.value, str)}
+        callers = 0
+        for name, info in classes.items():
+            calls = [n for n in ast.walk(info["node"]) if isinstance(n, ast.Call) and ast.unparse(n.func) == f"self.{meth}"]
+            if not calls:
+                continue
+            if not any(isinstance(b, (ast.Name, ast.Attribute)) and ast.unparse(b).split(".")[-1] == cls for b in info["node"].bases):
+                raise Untranslatable(f"{info['cls']} calls self.{meth} but does not list {cls} as a base")
+            bindings = set()
+            for c in calls:
+                if c.args:
+                    raise Untranslatable(f"{info['cls']}: positional arguments to self.{meth}")
+                b = dict(params)
+                for kw in c.keywords:
+                    if kw.arg in params:
+                        if not (isinstance(kw.value, ast.Constant) and isinstance(kw.value.value, str)):
+                            raise Untranslatable(f"{info['cls']}: self.{meth}({kw.arg}=…) is not a literal")
+                        b[kw.arg] = kw.value.value
+                bindings.add(tuple(sorted(b.items())))
+            if len(bindings) != 1:
+                raise Untranslatable(f"{info['cls']}: self.{meth} is called with different parameter names")
+            binding = dict(next(iter(bindings)))
+            conds = [c if p else ("not", c) for p, c in ((p, cond_atom(t, fn, binding)) for p, t in g["reach_nodes"])]
+            if g["reach_other"] or any(cond_opaque(c) for c in conds):
+                msg = (f"{g['label']}: reached under a condition that is not a function of the call's arguments: "
+                       f"{g['reach_other'] + [cond_text(c) for c in conds if cond_opaque(c)]}")
+                if msg not in errors:
+                    errors.append(msg)
+                conds = []
+            add(info, g, conds)
+            callers += 1
+        # no built-in caller: the gate is judged through GATE_REACH (check_reach)
+    return sorted(out.values(), key=lambda e: e["call_string"])
+
+
 def read_gates(ctx: Ctx, src: Path) -> tuple[list[dict], list[str]]:
     gates, unmapped = [], []
     for path in sorted(src.rglob("*.py")):
@@ -495,10 +778,29 @@ def read_gates(ctx: Ctx, src: Path) -> tuple[list[dict], list[str]]:
                     raise Untranslatable(f"{rel}:{q}: positional is_lower")
                 key = (rel, q, n)
                 g = dict(label=f"{rel}:{q}#{n}", feature_const=f, thr=ctx.features[f], lower=lower, line=node.lineno,
-                         feature=GATE_FEATURE.get(key))
+                         feature=GATE_FEATURE.get(key), rel=rel, qual=q, key=key, fn=fn)
+                reach = reach_conditions(fn, node, g["label"])
+                g["reach_nodes"] = [(r[0], r[1]) for r in reach if isinstance(r[0], bool)]
+                g["reach_other"] = [f"{r[0]} {r[1]}" for r in reach if not isinstance(r[0], bool)]
+                g["reach"] = [(f"{r[0]} {r[1]}" if not isinstance(r[0], bool) else
+                               (ast.unparse(r[1]) if r[0] else "not (" + ast.unparse(r[1]) + ")")) for r in reach]
                 (gates if g["feature"] else unmapped).append(g)
                 n += 1
     return gates, [g["label"] for g in unmapped]
+
+
+def check_reach(gates: list[dict], builtins: list[dict], errors: list[str]) -> None:
+    """every mapped gate is either judged per argument combination of the built-ins that reach it, or its reach conditions are the reviewed ones"""
+    via = {gg["label"] for b in builtins for gg in b["gates"]}
+    for g in gates:
+        if g["label"] in via:
+            continue
+        want = GATE_REACH.get(g["key"])
+        if want is None:
+            errors.append(f"{g['label']}: no reviewed reach condition for this gate (reached when: {g['reach']})")
+        elif g["reach"] not in want:
+            errors.append(f"{g['label']}: the gate is now reached only when {g['reach']} (reviewed: {want}) — "
+                          "programs using the feature on another path would no longer be checked")
 
 
 def read_strategy(ctx: Ctx, src: Path) -> list[dict]:
@@ -534,8 +836,17 @@ def translate(repo: Path) -> dict:
     rule = read_private_rule(ctx, src)
     sites = read_json_sites(ctx, src) + read_build(ctx, src) + read_lookups(ctx, src)
     gates, unmapped = read_gates(ctx, src)
+    # reach conditions that cannot be analysed do not stop the translation: the tables are still needed to SEARCH for a failing input;
+    # they are reported by c18.py as a fail-closed translator error
+    reach_errors: list[str] = []
+    builtins = read_gated_builtins(src, gates, reach_errors)
+    check_reach(gates, builtins, reach_errors)
+    for g in gates:
+        g.pop("fn", None), g.pop("reach_nodes", None)
+    for b in builtins:
+        b.pop("node", None)
     return dict(features=features, formats=formats, rule=rule, sites=sites, gates=gates, unmapped_gates=unmapped,
-                sgates=read_strategy(ctx, src))
+                sgates=read_strategy(ctx, src), gated_builtins=builtins, reach_errors=reach_errors)
 
 
 # ----------------------------------------------------------------------------- Coq output
@@ -587,4 +898,6 @@ if __name__ == "__main__":
     import sys
     tt = translate(Path(sys.argv[1] if len(sys.argv) > 1 else "/repo"))
     print(coq_text(tt))
-    print(json.dumps(dict(unmapped=tt["unmapped_gates"]), indent=1))
+    print(json.dumps(dict(unmapped=tt["unmapped_gates"], reach_errors=tt["reach_errors"], reach={g["label"]: g["reach"] for g in tt["gates"]},
+                          gated_builtins=[dict(call=b["call_string"], args=b["args"], defaults=b["defaults"],
+                                               gates=[(g["label"], g["conds_text"]) for g in b["gates"]]) for b in tt["gated_builtins"]]), indent=1))
